@@ -122,3 +122,59 @@ pub fn catch<T>(f: impl FnOnce() -> T) -> Result<T, String> {
         }
     }
 }
+
+/// Entry point shared by all area binaries: `<bin> <area> gen --seed S --n N [--tier T] | run | consts`.
+pub fn main_with(areas: &[(&str, &dyn Area)]) {
+    let args: Vec<String> = std::env::args().collect();
+    if args.len() < 3 {
+        eprintln!("usage: {} <area> gen --seed S --n N | run | consts   (areas: {:?})", args[0], areas.iter().map(|a| a.0).collect::<Vec<_>>());
+        std::process::exit(2);
+    }
+    // silence panic messages from catch_unwind'ed implementation calls
+    if std::env::var("VERIF_PANIC_VERBOSE").is_err() {
+        std::panic::set_hook(Box::new(|_| {}));
+    }
+    let area = match areas.iter().find(|a| a.0 == args[1]) {
+        Some(a) => a.1,
+        None => {
+            eprintln!("unknown area {}", args[1]);
+            std::process::exit(2);
+        }
+    };
+    let mut seed = 1u64;
+    let mut n = 100usize;
+    let mut i = 3;
+    while i + 1 < args.len() {
+        match args[i].as_str() {
+            "--seed" => seed = args[i + 1].parse().unwrap(),
+            "--n" => n = args[i + 1].parse().unwrap(),
+            "--tier" => std::env::set_var("VERIF_TIER", &args[i + 1]),
+            _ => {}
+        }
+        i += 2;
+    }
+    let stdout = std::io::stdout();
+    let mut out = std::io::BufWriter::new(stdout.lock());
+    match args[2].as_str() {
+        "gen" => {
+            let mut rng = Rng::new(seed);
+            area.gen(&mut rng, n, &mut out);
+        }
+        "run" => {
+            let stdin = std::io::stdin();
+            let mut inp = stdin.lock();
+            let mut r = area.runner();
+            run_stream(r.as_mut(), &mut inp, &mut out);
+        }
+        "consts" => {
+            for (k, v) in area.consts() {
+                writeln!(out, "{}\t{}", k, v).unwrap();
+            }
+        }
+        _ => {
+            eprintln!("unknown command");
+            std::process::exit(2);
+        }
+    }
+    out.flush().unwrap();
+}
